@@ -40,6 +40,7 @@ func (C02) Generate(rng *rand.Rand, tier string, runIdx uint64) simkit.Plan {
 	u := DefaultUniverse()
 	w := FullWeights(rng)
 	w.Snapshot, w.Restart, w.Fault = 0, 0, 0
+	w.NoGatewayWildcard = true // see Gen.wild: exercised under C07 with its known finding
 	g := NewGen(rng, u, w)
 	n := 8 + rng.IntN(40)
 	p := &Plan{Cfg: Cfg{GCTTL: "15m", GCGran: "30s", Cut: -1, Overlap: simkit.Pick(rng, []int{0, 0, 1, 5}), Live: simkit.Chance(rng, 40)}}
@@ -134,6 +135,17 @@ func indexTableDiff(orig, restored Dump, last uint64) string {
 	return indexTableDiffOpt(orig, restored, last, false)
 }
 
+// derivedIndexQuery: queries whose reported index is (also) computed from derived rows or derived-table indexes.
+func derivedIndexQuery(name string) bool {
+	for _, p := range []string{"CheckConnectServiceNodes", "CheckIngressServiceNodes", "ConnectServiceNodes", "GatewayServices", "DumpGatewayServices",
+		"ServiceTopology", "ServiceNamesOfKind", "ServiceDiscoveryChain", "ServiceDump"} {
+		if strings.HasPrefix(name, p) {
+			return true
+		}
+	}
+	return false
+}
+
 func derivedIndexKey(k string) bool {
 	return k == "gateway-services" || k == "mesh-topology" || strings.HasPrefix(k, "kind_service_names.")
 }
@@ -168,6 +180,9 @@ func indexTableDiffOpt(orig, restored Dump, last uint64, skipDerived bool) strin
 		switch {
 		case !ok:
 			out = append(out, fmt.Sprintf("index row %q (=%d) missing after restore", k, o[k]))
+		case !derivedIndexKey(k) && rv != o[k] && !skipDerived:
+			// base tables and per-entity rows are persisted verbatim: they must come back exactly
+			out = append(out, fmt.Sprintf("index row %q changed across restore: %d -> %d", k, o[k], rv))
 		case rv < o[k]:
 			out = append(out, fmt.Sprintf("index row %q went backwards: %d -> %d", k, o[k], rv))
 		case rv > last:
@@ -517,6 +532,10 @@ func compareBatteryRun(r *simkit.Run, qs []Query, want, got []QResult, last uint
 			r.Hit("known-finding.C02-gateway-service-kind-history-dependent")
 		}
 		if (w.Err == "") != (g.Err == "") || w.Result != g.Result {
+		} else if !q.UsageMetric && g.Index != w.Index && !derivedIndexQuery(q.Name) {
+			// queries whose index comes from base tables / per-entity rows report exactly the same index
+			diffs = append(diffs, fmt.Sprintf("%s: same result, query index original=%d restored=%d (snapshot last index %d)", q.Name, w.Index, g.Index, last))
+			groups[q.Group+":index"] = true
 		} else if !q.UsageMetric && g.Index != w.Index && (g.Index > last || g.Index == 0) {
 			// Query indexes that are computed from the Raft indexes of DERIVED rows (gateway links, topology,
 			// kind names) move when restore re-derives those rows; the blocking-query contract exempts restore
